@@ -123,6 +123,11 @@ func runSigRepo() int {
 			if it.Kind == "sigBlobGone" && variant == "memory" {
 				variant = "oci"
 			}
+			// (a manifest that vanished is still known to the handle that saw it pushed; a layout holding a referrer entry
+			// without its file cannot be opened anew)
+			if it.Kind == "sigManifestGone" {
+				variant = "oci"
+			}
 		}
 		ociRepo := func() registry.Repository {
 			r, err := registry.NewOCIRepository(dir0(), registry.RepositoryOptions{})
@@ -201,6 +206,12 @@ func runSigRepo() int {
 						// ... and the envelope blob vanishes from the layout (somebody cleaned up too eagerly)
 						must(os.Remove(filepath.Join(dir, "blobs", bd.Digest.Algorithm().String(), bd.Digest.Encoded())))
 					}
+				case "sigManifestGone":
+					rec.mt = mtJWS
+					_, rec.manifest, perr = repo.PushSignature(ctx, rec.mt, blob, subj, ann)
+					if perr == nil {
+						must(os.Remove(filepath.Join(dir, "blobs", rec.manifest.Digest.Algorithm().String(), rec.manifest.Digest.Encoded())))
+					}
 				case "sigAtCap":
 					// annotations padded so that the signature manifest is exactly 4 MiB (measured with a trial push elsewhere)
 					rec.mt = mtJWS
@@ -224,7 +235,7 @@ func runSigRepo() int {
 			}
 			alt := subj
 			switch it.Kind {
-			case "sig", "sigAtCap", "sigBlobGone":
+			case "sig", "sigAtCap", "sigBlobGone", "sigManifestGone":
 			case "legacySig", "legacyForeign":
 				at := artifactTypeNotation
 				if it.Kind == "legacyForeign" {
@@ -248,6 +259,8 @@ func runSigRepo() int {
 				rec.manifest = img(artifactTypeNotation, &alt, []ocispec.Descriptor{layer(blob, mtJWS)}, 0)
 			case "noSubject":
 				rec.manifest = img(artifactTypeNotation, nil, []ocispec.Descriptor{layer(blob, mtJWS)}, 0)
+			case "noSubjectLayerIsArtifact":
+				rec.manifest = img(artifactTypeNotation, nil, []ocispec.Descriptor{{MediaType: subj.MediaType, Digest: subj.Digest, Size: subj.Size}}, 0)
 			case "hostile0":
 				rec.manifest = img(artifactTypeNotation, &subj, nil, 0)
 			case "hostile2":
